@@ -46,7 +46,7 @@ CHECKS = {
     'C07': dict(
         technique='fuzzing with an exception-class oracle through all five entry points (arbitrary Unicode, token-vocabulary sequences, token-level mutations of valid texts, type-chaotic valid syntax, annotation faults, deep nesting to depth 100), failures bucketed by (exception type, innermost hpl frame); stateful property-based testing (rule-based machine) of parser objects against fresh parser objects',
         level='bounded exploration: thousands of inputs per run, about two thirds of which get past the lexer (measured and reported); every outcome must be an AST of the right kind or a documented error (ValueError only with an unknown function name in the text); parser objects are compared with fresh ones after arbitrary call histories of valid and invalid texts',
-        note='the recursion limit is held at the interpreter default relative to the call while the library runs; Lark\'s "expected one of" lists are compared as sets; an atheris campaign was not built (Hypothesis families are the decider)',
+        note='the recursion limit is held at the interpreter default relative to the call while the library runs; Lark\'s "expected one of" lists are compared as sets; the thorough tier adds an atheris/libFuzzer campaign over token-index inputs with the same oracle (Hypothesis families are the decider)',
         ref='DESIGN.md section 4, C07',
     ),
     'C08': dict(
@@ -128,6 +128,31 @@ CHECKS = {
         ref='DESIGN.md section 4, C20',
     ),
 }
+
+# Additions of the second build session (DESIGN.md section 8.6), appended to the texts above.
+EXTRA = {
+    'C02': dict(level=' A shadowing family draws quantifier variables, aliases and free references from one pool of three names (nesting depth 3, quantifiers inside domains); API-built disjunctions are nested in every shape, not only as the parser nests them.',
+                technique='; shadowing family (one name pool for binders, aliases and free references); API-built disjunction nestings'),
+    'C05': dict(level=' A deterministic table places four kinds of reference (and a quantified variable, also across nested binders) at every typed position of the signature table and uses it again at every disjoint type, in both orders, under `or` and behind a neutral use: about 4 500 clash texts, enumerated completely on every run.',
+                technique='; exhaustive position x later-use clash table derived from the signature table'),
+    'C07': dict(level=' An order differential runs sequences of up to 40 related calls (repeated, respelled, truncated, junk-inserted texts, annotated files, whitespace changed inside string literals) forwards on one set of parser objects and backwards on another and requires equal outcomes call by call.',
+                technique='; order-differential sequence testing of parser objects (forward vs reverse call order, attributed with fresh parsers)'),
+    'C08': dict(level=' The small grammar now also holds algebraic-law tables (power towers, products of powers, linear terms with two constants, comparisons solved for the variable), comparison pairs under every connective, nested quantifiers and aggregate/membership tables over literal ranges and sets (the last enumerated completely in both tiers); every grid is extended by wide valuations (larger numbers, other fractions, arrays of 3-4 elements); a third of the random inputs are results of other API functions (compositions), and simplify is applied a second time.',
+                technique='; algebraic-law and aggregate tables; inputs derived through other API functions (metamorphic compositions)'),
+    'C09': dict(level=' Inputs also include results of other API functions (simplify, negate, parts, refactor halves), the algebraic-law / comparison-pair / nested-quantifier tables and wide valuations.', technique='; derived inputs (compositions)'),
+    'C10': dict(level=' Inputs also include results of other API functions, nested-quantifier tables (alias in inner and outer domains) and wide valuations.', technique='; derived inputs (compositions)'),
+    'C11': dict(level=' A history family applies canonical_form repeatedly in one process (same object, equal property under other annotations, but()-copies with another bound / behaviour / scope, API-renested disjunctions, members of earlier results) and checks every result against the object actually passed; a vacuity table (16 848 properties with absent / {True} / {False} / {x > 0} predicates per position) is sliced in the quick tier and enumerated in the thorough tier.',
+                technique='; call-history family (model-based: expectation recomputed from the argument of every call); vacuity table'),
+    'C12': dict(level=' A quarter of the properties are judged after a history (canonical_form already applied; copy with another or no time bound; the same text parsed again); event predicates include {True} and {False}.', technique='; histories (derived properties)'),
+    'C13': dict(level=' join() is also applied to related operands (the same predicate, its negation, one operator / literal / quantifier kind changed) and to a deterministic table of quantified operands over the same binder.', technique='; related-operand pairs and join table'),
+    'C14': dict(level=' Every function is also called on non-boolean expressions (totality and container kind only) and on the vacuity table of properties.', technique='; vacuity table; non-boolean inputs'),
+    'C15': dict(level=' Events are built through the API with their disjunctions nested in every shape.', technique='; API-built disjunction nestings'),
+    'C16': dict(level=' Every node object a step creates gets a note written into its metadata dict for a moment (and durably by an annotate step); no tree obtained earlier may show it.', technique='; metadata-aliasing probe on every created object'),
+    'C19': dict(level=' Numerals include integers beyond the float range and 360-digit integers.', technique=''),
+}
+for _pid, _e in EXTRA.items():
+    CHECKS[_pid]['level'] += _e['level']
+    CHECKS[_pid]['technique'] += _e['technique']
 
 ALL = [f'C{i:02d}' for i in range(1, 21)]
 
